@@ -56,7 +56,7 @@ def confirm(prop, root="/tmp/seed", offset=0):
     sh("git -C /repo worktree prune")
 
 
-def run(seed, tier="quick", props=None):
+def run(seed, tier="quick", props=None, only=None):
     """apply the seed to a scratch COPY of /repo (VERIF_REPO points the checks at it), run the checks, remove the copy"""
     d = "/verif/seeded/" + seed
     meta = json.load(open(os.path.join(d, "meta.json")))
@@ -71,7 +71,7 @@ def run(seed, tier="quick", props=None):
     try:
         for p in (props or meta["breaks"]):
             t0 = time.time()
-            r = subprocess.run("./check %s --tier %s" % (p, tier), cwd="/verif", env=env, shell=True, stdout=subprocess.PIPE,
+            r = subprocess.run("./check %s --tier %s%s" % (p, tier, " --only " + only if only else ""), cwd="/verif", env=env, shell=True, stdout=subprocess.PIPE,
                                stderr=subprocess.STDOUT, text=True, timeout=14400)
             rc, out = r.returncode, r.stdout
             viol = [l for l in out.splitlines() if l.startswith("VIOLATION") or l.startswith("INCONCLUSIVE")]
@@ -92,4 +92,4 @@ if __name__ == "__main__":
         for p in sys.argv[2:]:
             confirm(p, "/tmp/seed2", 2)
     elif sys.argv[1] == "run":
-        run(sys.argv[2], sys.argv[3] if len(sys.argv) > 3 else "quick", sys.argv[4].split(",") if len(sys.argv) > 4 else None)
+        run(sys.argv[2], sys.argv[3] if len(sys.argv) > 3 else "quick", sys.argv[4].split(",") if len(sys.argv) > 4 else None, sys.argv[5] if len(sys.argv) > 5 else None)
